@@ -323,7 +323,8 @@ def xsd_outcome(chk: harness.Check, run: xschema.XsdRun, base: Dict[str, Any], w
     return False
 
 
-def schema_validity(chk: harness.Check, validators: xschema.Validators, base: Dict[str, Any]) -> bool:
+def schema_validity(chk: harness.Check, validators: xschema.Validators, base: Dict[str, Any],
+                    patterns: List[str]) -> bool:
     """Part (a): both processors build the schema; escapes belong to the XSD grammar."""
     chk.count("schemas_loaded_in_xsd10_and_xsd11")
     flagged = set()
@@ -337,6 +338,12 @@ def schema_validity(chk: harness.Check, validators: xschema.Validators, base: Di
                 chk.count("schemas_not_judged_for_a_limitation_of_the_validator")
                 chk.hist("validator_limitations", key)
                 continue
+            if key.startswith("pattern/") and not key.startswith(
+                ("pattern/escape-not-in-xsd-grammar", "pattern/lazy-quantifier")
+            ):
+                causes = sorted({c for c in (xschema.confirmed_cause_of_invalid_facet(p) for p in patterns) if c})
+                if causes:
+                    key = "pattern/" + causes[0]
             chk.violation(
                 "xsd-invalid/" + key,
                 dict(base, refused_by=versions, schema=validators.xsd_text[:6000],
@@ -427,7 +434,7 @@ def rejection_key(pm: pyexec.PyModel, exp: xschema.Expectations, nodes: Optional
 # --------------------------------------------------------------------------- (a)+(b)
 def check_model(chk: harness.Check, name: str, text: str, rng: Any, n_instances: int,
                 n_xmllint: int, fixture_snippets: Optional[Dict[str, str]] = None,
-                deadline: float = float("inf")) -> None:
+                pace: Optional[xschema.Pace] = None) -> None:
     base = {"model": name, "text": text}
     try:
         pm = pyexec.PyModel(text)
@@ -449,7 +456,7 @@ def check_model(chk: harness.Check, name: str, text: str, rng: Any, n_instances:
             return
         validators = xschema.Validators(run.xsd or "")
         chk.count("model_schemas_built")
-        if not schema_validity(chk, validators, base):
+        if not schema_validity(chk, validators, base, model_patterns):
             return
         if fixture_snippets is not None:
             chk.case(sample=None)
@@ -474,7 +481,7 @@ def check_model(chk: harness.Check, name: str, text: str, rng: Any, n_instances:
         docs_for_lint: List[Tuple[str, bool]] = []
         constrained_here = 0
         for i in range(n_instances):
-            if chk.elapsed() > deadline:
+            if pace is not None and pace.over():
                 chk.count("instances_skipped_for_budget", n_instances - i)
                 break
             cls = classes[i % len(classes)]
@@ -594,7 +601,7 @@ def check_pattern(chk: harness.Check, lab: xschema.PatternLab, source: str, patt
             return
         assert case.validators is not None
         base["emitted_xs_pattern"] = case.emitted
-        if not schema_validity(chk, case.validators, base):
+        if not schema_validity(chk, case.validators, base, [pattern]):
             chk.case()
             return
         if case.emitted is None:
@@ -644,16 +651,11 @@ def check_pattern(chk: harness.Check, lab: xschema.PatternLab, source: str, patt
                 chk.count("rejections_not_confirmed_by_xmllint")
                 chk.hist("validator_disagreements", "member: xmlschema rejects / xmllint accepts: " + rg.skeleton(pattern))
                 return
-            minimal = None
-            if shrinks_left[0] > 0:
-                shrinks_left[0] -= 1
-                minimal = xschema.shrink_disagreement(pattern, "rejects-member", rng)
+            may_shrink = shrinks_left[0] > 0
+            mechanism, minimal = xschema.explain_disagreement(pattern, "rejects-member", rng, may_shrink)
             if minimal is not None:
-                cause = xschema.cause_of(minimal)
-                key = "pattern-rejects-member/" + (cause or "minimal:" + rg.skeleton(minimal))
-            else:
-                cause = xschema.cause_of(pattern)
-                key = "pattern-rejects-member/" + (cause or "not-minimised")
+                shrinks_left[0] -= 1
+            key = "pattern-rejects-member/" + mechanism
             chk.violation(
                 key,
                 dict(base, string=s, python_re_match=True, xsd_accepts=verdicts,
@@ -685,19 +687,36 @@ def fixture_cases() -> List[Tuple[str, str, Dict[str, str]]]:
     return cases
 
 
+MINIMA = {
+    "schemas_loaded_in_xsd10_and_xsd11": (60, 250),
+    "documents_validated": (150, 1500),
+    "constrained_values_in_validated_documents": (150, 1500),
+    "pattern_member_strings_validated": (200, 1200),
+}
+
+
 def worker(args) -> Dict[str, Any]:
     argv, shard, n_shards, n_models, n_instances, n_patterns, n_strings, t0 = args
     chk = harness.Check("C13", "exploration", RULE, argv)
     chk.t0 = t0  # budgets count from the start of the parent, warm-up included
     budget = chk.wall_budget(150, 780)
+    mine = {name: xschema.share(chk.pick(*pair), n_shards) for name, pair in MINIMA.items()}
+    pattern_pace = xschema.Pace(
+        chk, budget * 0.5, budget * 1.5,
+        {"pattern_member_strings_validated": mine["pattern_member_strings_validated"]},
+    )
+    model_pace = xschema.Pace(
+        chk, budget, budget * 3.0,
+        {k: v for k, v in mine.items() if k != "pattern_member_strings_validated"},
+    )
 
-    def run_models(models: List[Tuple[str, str, Optional[Dict[str, str]]]], until: float) -> None:
+    def run_models(models: List[Tuple[str, str, Optional[Dict[str, str]]]], pace: xschema.Pace) -> None:
         for idx, (name, text, snippets) in enumerate(models):
-            if chk.elapsed() > until:
+            if pace.over():
                 chk.count("models_skipped_for_budget", len(models) - idx)
                 break
             check_model(chk, name, text, chk.rng("inst", name), n_instances,
-                        n_xmllint=chk.pick(6, 12), fixture_snippets=snippets, deadline=until)
+                        n_xmllint=chk.pick(6, 12), fixture_snippets=snippets, pace=pace)
 
     try:
         # ---- hand-written models first: they are few and name known mechanisms
@@ -707,18 +726,18 @@ def worker(args) -> Dict[str, Any]:
         # the repository's own xsd fixtures (the v3 one takes minutes: never near the deadline)
         fixtures = [(n, t, s) for n, t, s in fixture_cases() if chk.tier == "thorough" or "v3" not in n]
         first += [f for k, f in enumerate(fixtures) if (k + 1) % n_shards == shard]
-        run_models(first, budget)
+        run_models(first, xschema.Pace(chk, budget, budget, {}))
         # ---- (c) patterns: cheap
         lab = xschema.PatternLab()
         patterns = pattern_workload(chk, n_patterns)
         shrinks_left = [chk.pick(6, 20)]
-        mine = patterns[shard::n_shards]
-        for idx, (source, pattern) in enumerate(mine):
-            if chk.elapsed() > budget * 0.5:
-                chk.count("patterns_skipped_for_budget", len(mine) - idx)
+        my_patterns = patterns[shard::n_shards]
+        for idx, (source, pattern) in enumerate(my_patterns):
+            if pattern_pace.over():
+                chk.count("patterns_skipped_for_budget", len(my_patterns) - idx)
                 break
             check_pattern(chk, lab, source, pattern, chk.rng("strings", source, pattern), n_strings, shrinks_left)
-        # ---- (a) + (b) generated models, the repository's own models and xsd fixtures
+        # ---- (a) + (b) generated models and the repository's own small models
         models: List[Tuple[str, str, Optional[Dict[str, str]]]] = []
         extra: List[Tuple[str, str, Optional[Dict[str, str]]]] = []
         extra += [(n, t, None) for n, t in corpus.small_common()]
@@ -737,7 +756,7 @@ def worker(args) -> Dict[str, Any]:
                 models.append(mmg.pop(0))
             if extra:
                 models.append(extra.pop(0))
-        run_models(models, budget)
+        run_models(models, model_pace)
     except Exception:  # noqa
         chk.harness_error("worker failed: " + traceback.format_exc()[-1500:])
     return chk.export()
@@ -761,10 +780,8 @@ def main(argv) -> int:
                 chk.merge(job.result())
             except Exception as err:
                 chk.harness_error(f"worker failed: {err!r}")
-    chk.require_min("schemas_loaded_in_xsd10_and_xsd11", chk.pick(60, 250))
-    chk.require_min("documents_validated", chk.pick(150, 1500))
-    chk.require_min("constrained_values_in_validated_documents", chk.pick(150, 1500))
-    chk.require_min("pattern_member_strings_validated", chk.pick(200, 1200))
+    for name, pair in MINIMA.items():
+        chk.require_min(name, chk.pick(*pair))
     chk.assume("a document is judged only if Python evaluates every invariant of the instance to True and all its strings are XML 1.0 characters (no line breaks when the model declares a pattern)")
     chk.assume("an escape inside xs:pattern that the XSD regex grammar (XSD 1.0 app. F / 1.1 app. G) does not define makes the schema invalid even where xmlschema and libxml2 tolerate it")
     chk.assume("xmllint is reported as a second opinion only")
